@@ -8,7 +8,7 @@ import glob, os, re, subprocess, sys, tempfile
 
 VERB = "-v" in sys.argv
 args = [a for a in sys.argv[1:] if a != "-v"]
-pats = args or sorted(glob.glob("/verif/benign/*.diff"))
+pats = [os.path.abspath(a) for a in args] or sorted(glob.glob("/verif/benign/*.diff"))
 CHECKS = sorted(f"C{m.group(1)}" for f in os.listdir("/verif/hsa/rules") if (m := re.fullmatch(r"c(\d\d)\.py", f)))
 
 
